@@ -34,6 +34,19 @@ CHECKS["C04"] = dict(
           "storage-level half (constant cells are never overwritten) is C05's frame theorem, here observed through dumps."),
     technique="Lean 4 proof (finite case split lifted to all values) + complete provenance enumeration")
 
+CHECKS["C10"] = dict(
+    category="proof",
+    text=("Lean 4 model of the string/bytes/conversion built-ins (substr family, strpos, replace, trim family, upper/lower, "
+          "tokenize, strlen, hex, hash, chr, raw, str incl. an exact %.16g, int, Base64) as total functions over byte lists "
+          "with C hazards as outcomes; theorems (BlocV.Proofs.C10) for the byte-range contract of chr, Base64 and integer "
+          "text round trips and index contracts; tied to /repo by exhaustive short-string x position-lattice calls "
+          "(arguments as variables and as temporaries, argument variables dumped after the call) under ASan+UBSan."),
+    design_ref="DESIGN.md §6 C10",
+    note=("Trusted: Lean kernel; correspondence is tested (exhaustive over the stated alphabet/lattice, sampled beyond); "
+          "strtod (num/isnum on text) is libc: only the isnum<=>num consistency is checked, on the implementation; "
+          "recorded hazard regions (decimal positions outside int64, INT64_MIN start) are listed in known_findings.json."),
+    technique="Lean 4 proof over a hand model + differential correspondence (exhaustive short strings x lattice)")
+
 NOT_YET = {}
 
 ALL = ["C%02d" % i for i in range(1, 20)]
